@@ -1763,3 +1763,102 @@ Proof.
 Qed.
 
 End Pair.
+
+(* ================================================================== *)
+(* 6.8 the theorem                                                     *)
+(* ================================================================== *)
+
+(* the bound on the measure: a function of the leader's last index and of matched *)
+Definition pair_measure_bound (last m : N) : N := (last - m) * (last + 3) + (last + 2).
+
+(* MAIN 6 (pair_convergence).  Hypotheses, all on the state at the start:
+   leader L (role Leader, term T <> 0) with a well-formed log (RepInv) whose entries have
+   non-zero terms, no batching, no pending leader transfer, check_quorum off, no pending
+   read-index request, heartbeat_timeout >= 1, and nothing queued for F;
+   L's Progress for F is Probe or Replicate - paused or not, any window contents -, with
+   matched < next_idx <= last_index + 1, no snapshot request, a window without a
+   pending capacity change and of positive capacity; L still holds its log from [matched]
+   on (no compaction beyond what F has acknowledged);
+   follower F (role Follower, same term, well-formed log, no snapshot request pending,
+   empty queue) whose log agrees with L's on [matched, a] and with no entry of L's log
+   above a (a is the exact agreement frontier; F may hold any other entries above a), and
+   commit index <= a; F's election timer is not due before the first heartbeat
+   (or F is not promotable).
+   Conclusion: if N >= (heartbeat_timeout + 2) * pair_measure_bound (last_index L) matched
+   rounds of the lock-step schedule [pair_round] run without a panic, then L's Progress for
+   F has matched = last_index L, F's log agrees with L's up to last_index L, L is still
+   leader and F still follower of term T. *)
+Theorem pair_convergence :
+  forall (L F : raft) (rwl rwf : bool) (pr : progress) (a : N) (N0 : nat) (L' F' : raft),
+  (* the leader *)
+  r_state L = Leader -> r_term L <> 0 -> r_id L <> r_id F ->
+  RepInv rwl (r_log L) -> (forall e, In e (ll_ents (abs (r_log L))) -> e_term e <> 0) ->
+  r_batch_append L = false -> r_lead_transferee L = None -> r_check_quorum L = false ->
+  ro_queue (r_read_only L) = [] -> 1 <= r_heartbeat_timeout L ->
+  to_peer (r_id F) (r_msgs L) = [] ->
+  (* the leader's bookkeeping for the follower *)
+  get_pr L (r_id F) = Some pr -> (pr_state pr = Probe \/ pr_state pr = Replicate) ->
+  matched pr < next_idx pr -> next_idx pr <= last_index (r_log L) + 1 ->
+  pending_request_snapshot pr = 0 ->
+  incoming_cap (ins pr) = None -> (0 < cap (ins pr))%nat ->
+  ll_base (abs (r_log L)) <= matched pr ->
+  (exists t, ll_term (abs (r_log L)) (matched pr) = SOk t) ->
+  (* the follower *)
+  r_state F = Follower -> r_term F = r_term L -> RepInv rwf (r_log F) ->
+  r_pending_request_snapshot F = 0 -> r_msgs F = [] ->
+  Agree (abs (r_log L)) (abs (r_log F)) (matched pr) a -> committed (r_log F) <= a ->
+  (r_promotable F = false \/
+   r_election_elapsed F + r_heartbeat_timeout L + 1 < r_randomized_election_timeout F) ->
+  (* the run *)
+  (N.to_nat (r_heartbeat_timeout L + 2) *
+   N.to_nat (pair_measure_bound (last_index (r_log L)) (matched pr)) <= N0)%nat ->
+  rounds N0 L F = Ok (L', F') ->
+  exists pr',
+    get_pr L' (r_id F) = Some pr' /\ matched pr' = last_index (r_log L) /\
+    last_index (r_log L') = last_index (r_log L) /\
+    Agree (abs (r_log L)) (abs (r_log F')) (matched pr) (last_index (r_log L)) /\
+    r_state L' = Leader /\ r_term L' = r_term L /\ r_state F' = Follower /\ r_term F' = r_term L.
+Proof.
+  intros L F rwl rwf pr a N0 L' F' Ls Lt Lid Lrep Lnz Lb Ltr Lcq Lro LH Lq
+         Pg Pst Pn PnL Pq Pic Pcap Pbase Pterm Fs Ft Frep Fq Fm Fag Fc Ftimer HN Hrun.
+  set (LL0 := abs (r_log L)) in *.
+  pose proof (abs_last rwl _ Lrep) as Hlast. fold LL0 in Hlast.
+  assert (HLL : LeaderLog LL0).
+  { constructor; [apply (abs_wf rwl _ Lrep)|exact Lnz|apply (ri_bound rwl _ Lrep)]. }
+  assert (HI : PairInv LL0 (r_term L) (r_id L) (r_id F) (matched pr) rwf (r_log L)
+                       (r_heartbeat_timeout L) a L F).
+  { constructor.
+    - constructor; auto. apply same_ents_refl.
+    - exists pr. split; [exact Pg|].
+      constructor; [exact Pst|lia|apply (ag_lo _ _ _ _ Fag)|exact Pn|rewrite <- Hlast; exact PnL|
+                    exact Pq|exact Pic|exact Pcap].
+    - constructor; auto.
+    - exact Fm.
+    - rewrite Lq. constructor.
+    - reflexivity.
+    - destruct Ftimer as [Ft1|Ft1]; [left; exact Ft1|right]. split; [lia|]. intros _. lia. }
+  assert (Hmu : mu LL0 pr <= N.of_nat (N.to_nat (pair_measure_bound (last_index (r_log L)) (matched pr)))).
+  { destruct (pv_pr _ _ _ _ _ _ _ _ _ _ _ HI) as (pr0 & Hg0 & HP). rewrite Pg in Hg0.
+    inversion Hg0; subst pr0.
+    pose proof (mu_bound LL0 (r_term L) (r_id L) (r_id F) (matched pr) Pbase Lt Lid a pr HP
+                  (ag_lastL _ _ _ _ Fag)) as Hb.
+    unfold pair_measure_bound. rewrite Hlast. lia. }
+  destruct (pair_converges_measure LL0 (r_term L) (r_id L) (r_id F) (matched pr) rwf HLL Pbase Pterm
+              Lt Lid rwl (r_log L) Lrep eq_refl _ (r_heartbeat_timeout L) a L F pr N0 L' F'
+              HI Pg LH Hmu HN Hrun) as (a' & pr' & HI' & Hg' & Hm').
+  exists pr'. split; [exact Hg'|]. split; [rewrite Hlast; exact Hm'|].
+  pose proof (pv_core _ _ _ _ _ _ _ _ _ _ _ HI') as HC'.
+  pose proof (pv_F _ _ _ _ _ _ _ _ _ _ _ HI') as HF'.
+  split.
+  { rewrite Hlast. destruct (lc_log _ _ _ _ HC') as (A & B & _). unfold last_index in *.
+    rewrite A, B. exact Hlast. }
+  split.
+  { rewrite Hlast.
+    destruct (pv_pr _ _ _ _ _ _ _ _ _ _ _ HI') as (pr0 & Hg0 & HP'). rewrite Hg' in Hg0.
+    inversion Hg0; subst pr0.
+    pose proof (fi_agree _ _ _ _ _ _ _ HF') as Hag'.
+    pose proof (pi_b _ _ _ _ HP'). pose proof (ag_lastL _ _ _ _ Hag').
+    replace (ll_last LL0) with a' by lia. exact Hag'. }
+  split; [apply (lc_state _ _ _ _ HC')|]. split; [apply (lc_term _ _ _ _ HC')|].
+  split; [apply (fi_state _ _ _ _ _ _ _ HF')|apply (fi_term _ _ _ _ _ _ _ HF')].
+Qed.
